@@ -427,7 +427,10 @@ def check_analytic_shoot(case, rec):
         g_ang = max(1e-3, 3 * dth)
         grazing = abs(sh["pz"]) / sh["n_end"] < g_ang or abs(e[2]) < g_ang
         # an endpoint on the surface makes the reflection coincide with the endpoint
-        grazing = grazing or max(f[2], t[2]) >= sorted(ice_spec["range"])[1] - 1e-2 or surface_grazing
+        # (likewise an endpoint closer to the surface than the landing tolerance: the pass before
+        # and the pass after the reflection cannot be told apart)
+        grazing = grazing or surface_grazing or \
+            max(f[2], t[2]) >= sorted(ice_spec["range"])[1] - max(1e-2, tol_miss, sh["miss"])
         if not grazing and sh["miss"] < 0.5 * max(1.0, 0.01 * L):
             events = int(sh["turned"]) + int(sh["reflected"])
             if p.direct:
@@ -440,7 +443,11 @@ def check_analytic_shoot(case, rec):
                 cl.append("reflected" if sh["reflected"] else "refracted_turn")
             # received direction = tangent of the shot ray at the receiver
             cz = sh["pz"] / sh["n_end"]
-            require(abs(cz - r[2]) <= 2 * dth + 1e-5 + 2 * sh["miss"] / max(L, 1.0),
+            # (a ray passing the receiver at distance `miss` is compared where the index differs by
+            # n' miss: d cos(theta) = n' miss / (n cos(theta)), large for shallow flat arrivals)
+            bend = ice_spec["k"] * ice_spec["a"] * math.exp(ice_spec["a"] * t[2]) * sh["miss"] / \
+                (sh["n_end"] * max(abs(cz), abs(r[2]), 1e-3))
+            require(abs(cz - r[2]) <= 2 * dth + 1e-5 + 2 * sh["miss"] / max(L, 1.0) + 2 * bend,
                     "solution %d: received_direction z %r but the shot ray arrives with z component %r; %s",
                     idx, r[2], cz, geom)
     rec.case(case, nontrivial=len(sols) == 2, classes=cl)
@@ -463,6 +470,9 @@ def _numeric_tolerance(Q, ice_spec, f, t, beta, direct, dz):
     hi_z = max(f[2], t[2])
     if direct or reflects or z_top is None:
         # smooth integrand except when nearly horizontal at the upper end point
+        if reflects and not direct:
+            # a reflected ray is steepest (in tan) at the surface, where it also omits dz/10 twice
+            hi_z = sorted(ice_spec["range"])[1]
         n_hi = prof.n_true(hi_z)
         g = n_hi * n_hi - beta * beta
         slope = abs(prof.dn(hi_z))
@@ -527,6 +537,25 @@ def check_numeric(case, rec):
                 "solution %d (%s): launched as reported the ray covers %r m horizontally, receiver at "
                 "%r m: error %.4g exceeds the dz-discretisation budget %.4g; %s",
                 idx, "direct" if direct else "indirect", float(q[0]), rho, err, tol, geom)
+        if direct and f[2] != t[2]:
+            # a direct path is integrated over the whole depth interval with int(|dz_tot|/dz) equal
+            # steps and nothing omitted: the trapezoid error of a function is at most step x its
+            # total variation / 2.  sec(theta) is monotone in z; TV(n sec) <= n_max TV(sec) + sec_max TV(n)
+            prof = Q.p
+            n_a, n_b = prof.n_true(min(f[2], t[2])), prof.n_true(max(f[2], t[2]))
+            g_a, g_b = n_a * n_a - beta * beta, n_b * n_b - beta * beta
+            if g_a > 0 and g_b > 0:
+                sec_a, sec_b = n_a / math.sqrt(g_a), n_b / math.sqrt(g_b)
+                step = abs(f[2] - t[2]) / max(1, int(abs(f[2] - t[2]) / dz))
+                b_L = step * abs(sec_a - sec_b)
+                b_T = (max(n_a, n_b) * b_L + step * max(sec_a, sec_b) * abs(n_a - n_b)) / C
+                require(abs(float(q[1]) - L) <= b_L + 1e-6 * L + 1e-9,
+                        "solution %d (direct): path_length %r vs line integral %r: differs by more than the "
+                        "trapezoid bound %.3g of %d steps over the depth interval; %s",
+                        idx, L, float(q[1]), b_L, int(abs(f[2] - t[2]) / dz), geom)
+                require(abs(float(q[2]) - T) <= b_T + 1e-6 * T + 1e-18,
+                        "solution %d (direct): tof %r vs line integral %r: differs by more than the "
+                        "trapezoid bound %.3g; %s", idx, T, float(q[2]), b_T, geom)
         # lengths and times: same relative budget, applied to the integrals at the reported beta
         rel = (tol + 1e-6 * rho) / max(rho, 1.0)
         rel = min(0.5, 2 * rel + 2e-3)
